@@ -40,10 +40,10 @@ def _alarm(signum, frame):
     raise CaseTimeout()
 
 
-def parse_all(data: bytes, thorough: bool) -> dict:
+def parse_all(data: bytes, thorough: bool, apis=("generic", "rdflib")) -> dict:
     """Run every entry point; returns {entry: outcome string}."""
     out = {}
-    for api in ("generic", "rdflib"):
+    for api in apis:
         for mode, fn in (("flat", consume_flat), ("grouped", consume_grouped)):
             for srcname in ("bytesio", "raw"):
                 src = io.BytesIO(data) if srcname == "bytesio" else faultio.ScheduleRaw(data)
@@ -69,7 +69,7 @@ def frames_in(data: bytes) -> int:
         return 0
 
 
-def run_one(data: bytes, thorough: bool):
+def run_one(data: bytes, thorough: bool, apis=("generic", "rdflib")):
     """-> (violation kind | None, detail, outcomes)."""
     nframes = frames_in(data) if len(data) > 2000 else 0
     budget = TIME_BUDGET + 0.0002 * nframes
@@ -77,7 +77,7 @@ def run_one(data: bytes, thorough: bool):
     t0 = time.process_time()
     signal.setitimer(signal.ITIMER_PROF, budget)
     try:
-        outcomes = parse_all(data, thorough)
+        outcomes = parse_all(data, thorough, apis)
     except CaseTimeout:
         return "hang", f"no result within {budget:.0f}s of CPU time", {}
     except BaseException as e:  # noqa: BLE001
@@ -252,6 +252,27 @@ def family_e3(thorough: bool = False):
                     jwire.mkrow("triple", {"s": ("iri", 1, 1), "p": ("iri", 1, 1),
                                            "o": ("literal", sbad, None, 1)})]
             yield "hostile-strings", jwire.write_delimited([jwire.enc_frame(rows)])
+    # strings that mean something to a formatting routine (%-directives with a huge width,
+    # str.format fields): in every string-valued field, and as a prefix label that is declared
+    # twice with different IRIs
+    for fmt in ("%0999999999d", "%999999999s", "%-999999999s %s %s %s", "{0:>999999999}",
+                "{:999999999}", "%(name)999999999s", "%*d", "${jndi:x}", "%n%n%n"):
+        rows = [o2,
+                jwire.mkrow("prefix", {"id": 1, "value": "http://a/" + fmt}),
+                jwire.mkrow("prefix", {"id": 2, "value": fmt}),
+                jwire.mkrow("name", {"id": 1, "value": fmt}),
+                jwire.mkrow("name", {"id": 2, "value": "x"}),
+                jwire.mkrow("datatype", {"id": 1, "value": fmt}),
+                jwire.mkrow("namespace", {"name": fmt, "iri": ("iri", 1, 1)}),
+                jwire.mkrow("namespace", {"name": fmt, "iri": ("iri", 2, 2)}),
+                jwire.mkrow("namespace", {"name": "p", "iri": ("iri", 1, 1)}),
+                jwire.mkrow("namespace", {"name": "p", "iri": ("iri", 2, 1)}),
+                jwire.mkrow("triple", {"s": ("bnode", fmt), "p": ("iri", 1, 1),
+                                       "o": ("literal", fmt, fmt[:8], None)}),
+                jwire.mkrow("triple", {"s": ("iri", 2, 1), "p": ("iri", 1, 2),
+                                       "o": ("literal", fmt, None, 1)})]
+        yield "format-directives", jwire.write_delimited([jwire.enc_frame(rows)])
+        yield "format-directives", jwire.enc_frame(rows)
 
 
 def family_e3b():
@@ -391,7 +412,7 @@ def family_e5():
             yield "value-expansion", stream(lex, dt)
 
 
-def isolated(data: bytes, thorough: bool):
+def isolated(data: bytes, thorough: bool, apis=("generic", "rdflib")):
     """run_one in a child process of its own: peak RSS is per process and never goes down, so a
     case that is expected to balloon must not hide what later cases do."""
     import json  # noqa: PLC0415
@@ -401,7 +422,7 @@ def isolated(data: bytes, thorough: bool):
     if pid == 0:
         try:
             os.close(r)
-            kind, detail, outcomes = run_one(data, thorough)
+            kind, detail, outcomes = run_one(data, thorough, apis)
             os.write(w, json.dumps([kind, detail, outcomes]).encode())
         finally:
             os._exit(0)
@@ -660,7 +681,24 @@ def shard(job) -> dict:
             else:
                 acc.nontrivial += 1
             continue
-        if fam in ("e5", "e3b"):
+        if fam == "e5":
+            # each integration in a process of its own: which one balloons is part of the verdict
+            outcomes = {}
+            kind = detail = None
+            for api in ("generic", "rdflib"):
+                k1, d1, o1 = isolated(data, True, (api,))
+                outcomes.update(o1)
+                if k1:
+                    acc.violation({"fail": k1, "family": "e5", "label": label.split(":", 1)[1],
+                                   "api": api},
+                                  f"{label} ({api} entry points): {d1} on input {data[:48].hex()}"
+                                  f"{'...' if len(data) > 48 else ''} ({len(data)} bytes)",
+                                  {"family": label, "data": data.hex(), "thorough": True})
+            for v in outcomes.values():
+                hist[v] = hist.get(v, 0) + 1
+            acc.nontrivial += 1
+            continue
+        if fam == "e3b":
             kind, detail, outcomes = isolated(data, thorough)
         else:
             kind, detail, outcomes = run_one(data, thorough)
